@@ -360,6 +360,16 @@ def w_enum_fail_flag(acc, depth):
                     acc.run("history", o_history, h, True)
 
 
+def w_large(acc, n):
+    """Size boundary: a library holding n blocks (the universe is re-used, so most adds become duplicate wrappers),
+    then removals from both ends and replaces in the middle."""
+    ops = [["add", [["u", i % U_SIZE]], False, False] for i in range(n)]
+    ops += [["remove", [["s", 0]], False], ["remove", [["s", n - 2]], False], ["replace", ["s", n // 2], ["u", 7], True],
+            ["replace", ["s", n // 3], ["u", 0], False], ["remove", [["s", 1], ["s", 5]], True], ["add", [["u", 2], ["u", 6], ["u", 9]], False, True]]
+    acc.run("history", o_history, ops, True)
+    acc.classes["large-history"] += 1
+
+
 def op_strategy():
     from hypothesis import strategies as st
 
@@ -473,6 +483,7 @@ def run(chk):
         for first in range(n_ops):
             tasks.append(("w_enum", (d, first)))
     tasks.append(("w_enum_fail_flag", (3,)))
+    tasks += [("w_large", (n,)) for n in (130, 300, 1100)]
     n_rand = 24000 if quick else 300000
     shards = 8 if quick else 32
     for s in range(shards):
